@@ -155,8 +155,17 @@ func Exec(root filesystem.Filespace, op treefs.Op) (r Result) {
 				seterr(ce)
 			}
 		} else if e == nil {
-			for _, c := range op.Chunks {
-				if op.Via == "string" {
+			for ci, c := range op.Chunks {
+				if op.Via == "mixed" && ci%3 == 2 {
+					// every third chunk goes through io.Copy (ReadFrom), every second through
+					// io.WriteString, the rest through Write: one handle, all entry points
+					if _, we := io.Copy(w, strings.NewReader(c)); we != nil {
+						seterr(we)
+						break
+					}
+					continue
+				}
+				if op.Via == "string" || (op.Via == "mixed" && ci%3 == 1) {
 					// io.WriteString prefers the destination's WriteString when it has one
 					if _, we := io.WriteString(w, c); we != nil {
 						seterr(we)
